@@ -61,3 +61,31 @@ func Goroutines(substr string) string {
 	}
 	return strings.Join(out, "\n\n")
 }
+
+// WaitTasks calls a database's WaitOnTasks. That helper is an errgroup Wait,
+// and the tasks it waits for start further tasks (a flush enqueues a
+// compaction): the runtime may panic with "WaitGroup is reused before previous
+// Wait has returned". That is a limit of the helper, not of the database; the
+// wait is simply repeated.
+func WaitTasks(wait func() error) (err error) {
+	for i := 0; i < 50; i++ {
+		again := false
+		func() {
+			defer func() {
+				if r := recover(); r != nil {
+					if s, ok := r.(string); ok && strings.Contains(s, "WaitGroup is reused") {
+						again = true
+						return
+					}
+					panic(r)
+				}
+			}()
+			err = wait()
+		}()
+		if !again {
+			return err
+		}
+		runtime.Gosched()
+	}
+	return err
+}
